@@ -79,7 +79,7 @@ def run(ctx):
     ctx.rule = ('toy mode: random integer signals (6 families, length 3..40) x 6 integer toy envelope rules x random thresholds / steps / '
                 'iteration limits / caps through the real emd.sift.sift vs Toys.run_toy_sift (bit exact) + the completeness oracle on the '
                 'same runs; real numerics: 8 signal families x {sd,rilling,fixed} x step x {splrep,pchip,mono_pchip} x pad 1..4, no cap, no '
-                'energy threshold: completeness / non-oscillatory residual oracle.  non-trivial = at least two components and the sift ended '
+                'energy threshold: completeness / non-oscillatory residual oracle; the same oracle on zigzags of 5..14 samples (extrema on samples 1 and N-2).  non-trivial = at least two components and the sift ended '
                 'of its own accord')
     # the translation tie: the control skeletons of get_next_imf / sift / mask_sift are regenerated from the source and the
     # refinement theorems to the models used by this property's theorems are re-checked
@@ -129,6 +129,27 @@ def run(ctx):
             ctx.problem('impl-violation', 'sift', f,
                         input=dict(kind='real', signal=[float(v) for v in x], sift_thresh=thr, imf_opts=imf_opts,
                                    envelope_opts=envelope_opts, extrema_opts=extrema_opts, dtype=dt), tags=dict(mode='real', family=fam))
+    # ---- boundary extrema: zigzags (every interior sample an extremum, including samples 1 and N-2) on a trend, 5..14 samples.
+    # an extremum detector that misses the first or last interior sample leaves such a signal undecomposed
+    zrs = np.random.RandomState(ctx.seed * 17 + 4)
+    for i in range(60 if ctx.quick() else 1500):
+        N = int(zrs.randint(5, 15))
+        t = np.arange(N)
+        x = (-1.0) ** (t + i) * zrs.uniform(0.5, 2.0, N) + zrs.uniform(-0.3, 0.3) * t
+        if i % 3 == 0:
+            imf_opts, envelope_opts, extrema_opts = {}, {}, {}
+        else:
+            imf_opts, envelope_opts, extrema_opts = siftcore.real_opts(ctx.rng)
+        fails, path = oracle_real(x, 1e-8, imf_opts, envelope_opts, extrema_opts)
+        if path == 'timeout':
+            ctx.discarded += 1
+            continue
+        ctx.count(('zigzag', tuple(x), repr(imf_opts)), path == 'own-accord', 'real-zigzag-%s' % path)
+        ctx.tol_cmp += 1
+        for f in fails[:1]:
+            ctx.problem('impl-violation', 'sift', f,
+                        input=dict(kind='real', signal=[float(v) for v in x], sift_thresh=1e-8, imf_opts=imf_opts,
+                                   envelope_opts=envelope_opts, extrema_opts=extrema_opts, dtype=None), tags=dict(mode='real', family='zigzag'))
     if bad and not any(p['kind'] == 'impl-violation' for p in ctx.problems):
         inp, got, exp = bad[0]
         ctx.problem('correspondence-break', 'sift(toy)', 'model and implementation differ (%d disagreeing cases)' % len(bad), input=inp,
